@@ -693,6 +693,13 @@ func pureTier(a hx.Args, rng *hx.Rng, res *hx.Result) (fresh []string) {
 		orders = append(orders, shuffled(good))
 	}
 	results := make([][]string, len(orders))
+	type pending struct {
+		n     int
+		key   string
+		what  string
+		input map[string]interface{}
+	}
+	var pend []pending
 	aborted := 0
 	for k, ord := range orders {
 		if aborted >= 3 && k >= nRef {
@@ -722,8 +729,8 @@ func pureTier(a hx.Args, rng *hx.Rng, res *hx.Result) (fresh []string) {
 					break
 				}
 			}
-			res.Violate(key, fmt.Sprintf("%q does not return (%s) after the calls listed; %s", ab.During, ab.Abort, why),
-				map[string]interface{}{"calls_in_order": opNames(calls), "call": ab.During, "abort": ab.Abort})
+			pend = append(pend, pending{len(calls), key, fmt.Sprintf("%q does not return (%s) after the calls listed; %s", ab.During, ab.Abort, why),
+				map[string]interface{}{"calls_in_order": opNames(calls), "call": ab.During, "abort": ab.Abort}})
 			continue
 		}
 		if err != nil || len(resp.Obs) != len(ord) {
@@ -740,12 +747,6 @@ func pureTier(a hx.Args, rng *hx.Rng, res *hx.Result) (fresh []string) {
 		}
 	}
 	reported := map[string]bool{}
-	type pending struct {
-		n     int
-		what  string
-		input map[string]interface{}
-	}
-	var pend []pending
 	for k, ord := range orders {
 		if results[k] == nil {
 			continue
@@ -774,13 +775,13 @@ func pureTier(a hx.Args, rng *hx.Rng, res *hx.Result) (fresh []string) {
 					break
 				}
 			}
-			pend = append(pend, pending{len(calls), fmt.Sprintf("%q returns %s as the first call of a fresh process but %s after the calls listed (same arguments): the result depends on which use of the element type reached the type cache first", o.name, fresh[i], obs),
+			pend = append(pend, pending{len(calls), "C08/pure:type-cache-order", fmt.Sprintf("%q returns %s as the first call of a fresh process but %s after the calls listed (same arguments): the result depends on which use of the element type reached the type cache first", o.name, fresh[i], obs),
 				map[string]interface{}{"calls_in_order": opNames(calls), "call": o.name, "fresh_process": fresh[i], "after_history": obs}})
 		}
 	}
 	sort.SliceStable(pend, func(i, j int) bool { return pend[i].n < pend[j].n })
 	for _, p := range pend {
-		res.Violate("C08/pure:type-cache-order", p.what, p.input)
+		res.Violate(p.key, p.what, p.input)
 	}
 	res.Histogram["pure-orders"] = len(orders)
 
